@@ -52,7 +52,9 @@ func ReplayLog(rf ReplayFile) ([]string, error) { return ReplayLogOpts(rf, Repla
 
 func ReplayLogOpts(rf ReplayFile, o ReplayOpts) ([]string, error) {
 	if o.SkipInvariants {
-		chain.AppOptions = map[string]interface{}{"x-crisis-skip-assert-invariants": true}
+		// ... and with its own (high) minimum gas prices, a setting that only concerns which
+		// transactions the node admits to its own mempool
+		chain.AppOptions = map[string]interface{}{"x-crisis-skip-assert-invariants": true, "minimum-gas-prices": "1000uc4e,1000foo"}
 		defer func() { chain.AppOptions = nil }()
 	}
 	if o.InvCheckPeriod > 0 {
@@ -173,11 +175,11 @@ func runC11(c *fw.Case) {
 		c.Count("replay_errors", 1)
 	}
 	c11Compare(c, "application that is restarted every few blocks", n.Digests, d4)
-	d5, err := ReplayLogOpts(rf, ReplayOpts{SkipInvariants: true})
+	d5, err := ReplayLogOpts(rf, ReplayOpts{SkipInvariants: true, CheckTxFirst: true})
 	if err != nil {
 		c.Count("replay_errors", 1)
 	}
-	c11Compare(c, "application started with --x-crisis-skip-assert-invariants", n.Digests, d5)
+	c11Compare(c, "application started with --x-crisis-skip-assert-invariants and its own minimum-gas-prices", n.Digests, d5)
 	d6, err := ReplayLogOpts(rf, ReplayOpts{InvCheckPeriod: uint(1 + c.R.Intn(3))})
 	if err != nil {
 		c.Count("replay_errors", 1)
